@@ -312,7 +312,7 @@ class SelectionContainers(Facet):
                 "C09/population-container-modified/" + ("shrunk" if len(after) < len(before) else ("reordered" if sorted(after) == sorted(before) else "changed")),
                 f"{step_str(case['step'])} asked for {case['k']} of {len(before)} individuals left the caller's population list with {len(after)} entries (removed indices {[i for i, x in enumerate(before) if x not in after]})",
             )
-        elif [tuple(x.get_fitness(problem).fitness_components) for x in given] != fit_before:
+        elif [tuple(x.get_fitness(problem).fitness_components) if x.has_fitness(problem) else None for x in given] != fit_before:
             rec.fail("C09/input-modified/table/fitness", f"{step_str(case['step'])} changed a cached fitness of the given individuals")
         if len({tuple(v) for v in case["vectors"]}) >= 3 and case["k"] >= 2:
             rec.nontrivial(case)
